@@ -3,7 +3,7 @@
    Gen/PureFns.v and Gen/Consts.v are regenerated from /repo by tools/tx on every run. *)
 From Coq Require Import ZArith Bool.
 From Coq Require Import List NArith.
-From SV.Safe Require Import GoInt ErrBounds ConstsOk SizeArith Depth.
+From SV.Safe Require Import GoInt ErrBounds ErrEcho ConstsOk SizeArith Depth.
 From SV.Gen Require Import PureFns Consts.
 Open Scope Z_scope.
 
@@ -32,16 +32,17 @@ Print Assumptions C07_calcBounds_caret.
 Theorem C07_errors_description_safe : forall size pos,
   0 <= size <= max_int - 16 -> int_ok pos ->
   excerpt_safe size (errors_description size pos) /\
-  excerpt_len (errors_description size pos) <= (if (0 <=? pos) && (pos <? size) then 65 else size + 1).
+  excerpt_len (errors_description size pos) <= (if (0 <=? pos) && (pos <? size) then 65 else Z.max 65 (size + 1)).
 Proof. exact errors_description_safe. Qed.
 Print Assumptions C07_errors_description_safe.
 
-(* refuted clause: the message is NOT bounded by a constant - a position outside [0,size), in particular
-   pos = size carried by every EOF error, echoes the whole source *)
-Theorem C07_description_const_bound_refuted : forall K, 0 <= K ->
-  exists size pos, 0 <= size <= K + 1 /\ pos = size /\ excerpt_len (reorder (errors_calcBounds size pos)) > K.
-Proof. exact description_const_bound_refuted. Qed.
-Print Assumptions C07_description_const_bound_refuted.
+(* after fix e5f5c29: the excerpt is bounded by a constant for EVERY position an int can hold (positions outside the source -
+   every EOF error has pos = len - are clamped to the nearest end); before the fix they echoed the whole source *)
+Theorem C07_calcBounds_bounded_all : forall size pos,
+  0 <= size <= max_int - 16 -> int_ok pos ->
+  excerpt_ok32 size (errors_calcBounds size pos).
+Proof. exact calcBounds_bounded_all. Qed.
+Print Assumptions C07_calcBounds_bounded_all.
 
 (* ast.SyntaxError: no guard on Pos in the source; safe under the exact precondition, unsafe outside it *)
 Theorem C07_ast_description_safe : forall size pos,
